@@ -1,0 +1,34 @@
+//go:build verif
+
+package observation
+
+import "time"
+
+// Accessors for the verification harness (/verif). Compiled only with
+// -tags verif; nothing in the library calls them.
+
+// VerifShiftLastEvent moves the time stamp of the last accepted notification
+// by d (negative d = further into the past), so that the 128 s branch of
+// ValidSequenceNumber can be exercised without waiting. A zero time stamp
+// (no notification accepted yet) is left alone.
+func (o *Observation[C]) VerifShiftLastEvent(d time.Duration) {
+	o.private.mutex.Lock()
+	defer o.private.mutex.Unlock()
+	if !o.private.lastEvent.IsZero() {
+		o.private.lastEvent = o.private.lastEvent.Add(d)
+	}
+}
+
+// VerifState returns the sequence number and the time stamp of the last
+// accepted notification.
+func (o *Observation[C]) VerifState() (uint32, time.Time) {
+	o.private.mutex.Lock()
+	defer o.private.mutex.Unlock()
+	return o.private.obsSequence, o.private.lastEvent
+}
+
+// VerifWaiting reports whether the observation still waits for its first
+// response (NewObservation is blocked on it).
+func (o *Observation[C]) VerifWaiting() bool {
+	return o.waitForResponse.Load()
+}
